@@ -159,7 +159,10 @@ pub fn is_ref_url(url: &str) -> bool {
     !(has_scheme(url)
         || url.starts_with('/')
         || url.ends_with('/')
-        || url.chars().all(|c| c == '.' || c == '/'))
+        || url.chars().all(|c| c == '.' || c == '/')
+        // ... or a place inside the note itself ("#summary")
+        || url.starts_with('#')
+        || url.starts_with('?'))
 }
 
 // an address with a scheme; what holds white space is no address (a note called "Re: budget")
